@@ -169,6 +169,31 @@ where
     }
 }
 
+fn run_steps<I, F>(it: &mut I, st: Steps, tr: &mut Vec<Obs>, mut sink: F)
+where
+    I: DoubleEndedIterator + ExactSizeIterator,
+    F: FnMut(I::Item) -> Tag,
+{
+    tr.push(Obs::Len(m(|| it.len())));
+    for i in 0..st.len as usize {
+        let (back, skip) = Steps::decode(st.step(i));
+        let k = skip.unwrap_or(usize::MAX);
+        let y = match (back, skip) {
+            (false, Some(0)) => m(|| it.next()),
+            (true, Some(0)) => m(|| it.next_back()),
+            (false, _) => m(|| it.nth(k)),
+            (true, _) => m(|| it.nth_back(k)),
+        };
+        tr.push(Obs::Yield(y.map(&mut sink)));
+        let l = m(|| it.len());
+        let h = m(|| it.size_hint());
+        if h != (l, Some(l)) {
+            tr.push(Obs::Str(format!("size_hint {:?} != len {}", h, l)));
+        }
+        tr.push(Obs::Len(l));
+    }
+}
+
 /// Apply `act` to the real buffer, appending observations to `tr`.  Everything that calls into the
 /// crate goes through `m(..)`.  Argument elements are created here, tagged `A(j)`, *before* the
 /// ledger's call window opens (see `exec_step`), via `args`.
@@ -370,6 +395,80 @@ pub fn apply<const N: usize>(
                 t
             });
             m(|| drop(it));
+        }
+        StepsOn(kind, rs, st) => match kind {
+            0 => {
+                let mut it = m(|| sut.bref().iter());
+                run_steps(&mut it, st, tr, |e: &E| tag_of(e.0));
+            }
+            1 => {
+                let b = sut.b.as_mut().unwrap();
+                let mut it = m(|| b.iter_mut());
+                run_steps(&mut it, st, tr, |e: &mut E| tag_of(e.0));
+            }
+            2 => {
+                let mut it = m(|| sut.bref().range(rs.bounds()));
+                run_steps(&mut it, st, tr, |e: &E| tag_of(e.0));
+            }
+            3 => {
+                let b = sut.b.as_mut().unwrap();
+                let mut it = m(|| b.range_mut(rs.bounds()));
+                run_steps(&mut it, st, tr, |e: &mut E| tag_of(e.0));
+            }
+            4 => {
+                let b: Cb<N> = *sut.b.take().unwrap();
+                let mut it = m(|| b.into_iter());
+                run_steps(&mut it, st, tr, |e: E| {
+                    let t = tag_of(e.0);
+                    hold.elems.push(e);
+                    t
+                });
+                m(|| drop(it));
+            }
+            _ => {
+                let b = sut.b.as_mut().unwrap();
+                let mut d = m(|| b.drain(rs.bounds()));
+                run_steps(&mut d, st, tr, |e: E| {
+                    let t = tag_of(e.0);
+                    hold.elems.push(e);
+                    t
+                });
+                m(|| drop(d));
+            }
+        },
+        ExtendFromBuf(..) => {
+            let other: Cb<N> = *hold.bufs.pop().expect("source buffer");
+            m(|| sut.buf().extend(other));
+            tr.push(Obs::Unit);
+        }
+        IntoIterCloneFrom(a, _, b2) => {
+            let src_buf: Cb<N> = *hold.bufs.pop().expect("source buffer");
+            let mut src = src_buf.into_iter();
+            for _ in 0..b2 {
+                if let Some(e) = src.next() {
+                    hold.elems.push(e);
+                }
+            }
+            let b: Cb<N> = *sut.b.take().unwrap();
+            let mut it = m(|| b.into_iter());
+            for _ in 0..a {
+                if let Some(e) = m(|| it.next()) {
+                    hold.elems.push(e);
+                }
+            }
+            m(|| it.clone_from(&src));
+            let mut got = vec![];
+            for e in it {
+                got.push(tag_of(e.0));
+                hold.elems.push(e);
+            }
+            tr.push(Obs::Tags(got));
+            let mut got = vec![];
+            for e in src {
+                got.push(tag_of(e.0));
+                hold.elems.push(e);
+            }
+            tr.push(Obs::Tags(got));
         }
         DrainDebug(rs, s) => {
             let b = sut.b.as_mut().unwrap();
@@ -594,7 +693,8 @@ pub fn exec_step<const N: usize>(
     let mut args: Vec<E> = (0..n_args(act)).map(|j| E::with_tag(ledger::t_a(j))).collect();
     let mut hold: Hold<N> = Hold::default();
     match *act {
-        Act::CloneFrom(mm, rot) => hold.bufs.push(other_buf::<N>(mm, rot)),
+        Act::CloneFrom(mm, rot) | Act::ExtendFromBuf(mm, rot) => hold.bufs.push(other_buf::<N>(mm, rot)),
+        Act::IntoIterCloneFrom(_, mm, _) => hold.bufs.push(other_buf::<N>(mm, 1)),
         Act::EqOther(mm) | Act::CmpOther(mm) => hold.bufs.push(other_buf::<N>(mm, 1)),
         _ => {}
     }
@@ -668,8 +768,11 @@ pub fn exec_step<const N: usize>(
 pub fn apply_fast<const N: usize>(sut: &mut Sut<N>, act: &Act) -> bool {
     let mut args: Vec<E> = (0..n_args(act)).map(|j| E::with_tag(ledger::t_a(j))).collect();
     let mut hold: Hold<N> = Hold::default();
-    if let Act::CloneFrom(mm, rot) = *act {
+    if let Act::CloneFrom(mm, rot) | Act::ExtendFromBuf(mm, rot) = *act {
         hold.bufs.push(other_buf::<N>(mm, rot));
+    }
+    if let Act::IntoIterCloneFrom(_, mm, _) = *act {
+        hold.bufs.push(other_buf::<N>(mm, 1));
     }
     if let Act::EqOther(mm) | Act::CmpOther(mm) = *act {
         hold.bufs.push(other_buf::<N>(mm, 1));
